@@ -185,6 +185,7 @@ def _ops_other():
         "inits": lambda m: pm.set_initial_estimates(m, {m.parameters.names[0]: m.parameters.inits[m.parameters.names[0]] * 1.5}),
         "fix_first": lambda m: pm.fix_parameters(m, m.parameters.names[0]),
         "metabolite": pm.add_metabolite,
+        "metabolite_psc": lambda m: pm.add_metabolite(m, presystemic=True),
         "effect_cmt": lambda m: pm.add_effect_compartment(m, "linear"),
         "allometry": lambda m: pm.add_allometry(m, allometric_variable="WGT", reference_value=3.5),
         "iov": lambda m: pm.add_iov(m, "FA1", list_of_parameters=[m.random_variables.iiv.names[0]]),
